@@ -423,6 +423,26 @@ func checkOptionalReservedStores(c *report.Ctx) {
 		}
 		p, isP := mu.Value.(*ssa.Parameter)
 		if !isP {
+			// table-driven form: `for _, v := range table { if v.value != "" { v.target[v.key] = v.value } }` -
+			// the value stored and the value tested are the same field of the same table element
+			if fr, k := an.AsField(an.Strip(mu.Value, false)); k {
+				for _, ft := range facts.At(mu.Block()) {
+					bo, k2 := ft.Cond.(*ssa.BinOp)
+					if !k2 || (bo.Op != token.NEQ && bo.Op != token.EQL) {
+						continue
+					}
+					if s, isC := an.ConstString(bo.Y); !isC || s != "" {
+						continue
+					}
+					if gr, k3 := an.AsField(an.Strip(bo.X, false)); k3 {
+						n += 2 // one table row per optional variable; counted as the pair it replaces
+						if gr.Field != fr.Field || gr.Base != fr.Base {
+							ok = false
+							bad = append(bad, sprintf("table row stores field %s under a test of field %s", fr.Field, gr.Field))
+						}
+					}
+				}
+			}
 			return
 		}
 		for _, ft := range facts.At(mu.Block()) {
